@@ -673,10 +673,11 @@ C16_HostArg(v, out) ==
       /\ ~IsIPv4(ZoneSplit(V(out.ok.raw_host)[1])[1])) =>          \* an IPv4 literal with a zone id: unspecified
         AllLegalFrom(Unreserved \cup SubDelims, V(out.ok.raw_host)[1], 1)
 \* the constructor: a bracketed valid IPv6 literal is compressed
-C16_CtorHost(s, out) ==
+\* (an authority that contains an NFKC-delimiter code point -- e.g. inside the zone id -- is C16_Nfkc's: it must be refused)
+C16_CtorHost(s, nfkcDelims, out) ==
   \E gray \in BOOLEAN :
     LET a == AppendixBWith(StripWhatwg(s), gray) sa == SplitAuthority(a.authority) IN
-    (a.authority # <<>> /\ sa.bracketed /\ ~sa.oddBrackets /\ CanonIPv6Host(sa.host) # <<>>
+    (a.authority # <<>> /\ sa.bracketed /\ ~sa.oddBrackets /\ CanonIPv6Host(sa.host) # <<>> /\ ~HasAny(a.authority, nfkcDelims)
        /\ (sa.port = <<>> \/ (AllDigits(sa.port) /\ Len(sa.port) <= 5 /\ DigitsVal(sa.port) <= 65535))) =>
        (Ok(out) /\ Ok(out.ok.raw_host) /\ V(out.ok.raw_host) = Some(CanonIPv6Host(sa.host)))
 \* NFKC screen
